@@ -3,6 +3,7 @@
 #include <cstdio>
 #include <cstdlib>
 #include <cstring>
+#include <csignal>
 #include <cmath>
 #include <algorithm>
 #include <string>
@@ -306,6 +307,17 @@ int main(int argc, char **argv)
         px->scripted_forces.push_back(std::make_pair(pct_decode(w[i]), strtod(w[i + 1].c_str(), 0)));
       continue;
     }
+    if (cmd == "replicas") {
+      // replicas <index> <num> <fd to replica 0> <fd to replica 1> ... (-1 = none); inherited socket descriptors
+      signal(SIGPIPE, SIG_IGN);
+      px->rep_enabled = true;
+      px->rep_index = atoi(w[1].c_str());
+      px->rep_num = atoi(w[2].c_str());
+      px->rep_fds.clear();
+      for (size_t i = 3; i < w.size(); i++) px->rep_fds.push_back(atoi(w[i].c_str()));
+      continue;
+    }
+    if (cmd == "echo") { emit_simple("echo", 0, "\"token\":" + jstr(w.size() > 1 ? w[1] : "")); continue; }
     if (cmd == "force_script") {
       // 'force_script' alone clears the list; with arguments it appends one script command
       if (w.size() == 1) { px->force_scripts.clear(); continue; }
